@@ -152,6 +152,17 @@ func derive(r *rng, p pfx, w int) pfx {
 	return p
 }
 
+// commonPfx is the longest prefix covering both p and q (computed here with big.Int, not with
+// the code under test): where the trie puts an intermediate node.
+func commonPfx(p, q pfx, w int) pfx {
+	l := min(p.l, q.l)
+	x := new(big.Int).Xor(p.a, q.a)
+	if clz := w - x.BitLen(); clz < l {
+		l = clz
+	}
+	return pfx{a: maskTo(p.a, l, w), l: l}
+}
+
 func coqList(xs []string) string { return "[" + strings.Join(xs, "; ") + "]" }
 
 func main() {
@@ -183,6 +194,8 @@ func main() {
 				return pool[r.intn(len(pool))]
 			case k < 8:
 				return derive(r, pool[r.intn(len(pool))], w)
+			case k < 9:
+				return commonPfx(pool[r.intn(len(pool))], pool[r.intn(len(pool))], w)
 			default:
 				return genPfx(r, w)
 			}
@@ -208,7 +221,51 @@ func main() {
 			}
 			return coqList(xs), strings.Join(hs, ",")
 		}
-		for j := 0; j < nops; j++ {
+		drainFrom := nops
+		if r.intn(3) == 0 {
+			// drain phase: delete everything that is stored, probing as the trie collapses
+			drainFrom = nops * 2 / 3
+		}
+		var drain []pfx
+		for j := 0; j < nops || len(drain) > 0; j++ {
+			if j == drainFrom {
+				seen := map[string]bool{}
+				for _, e := range trie.ToSlice() {
+					q := fromCIDR(e.CIDR)
+					if !seen[q.coq()] {
+						seen[q.coq()] = true
+						drain = append(drain, q)
+					}
+				}
+				for x := len(drain) - 1; x > 0; x-- {
+					y := r.intn(x + 1)
+					drain[x], drain[y] = drain[y], drain[x]
+				}
+			}
+			if j >= drainFrom && len(drain) > 0 {
+				p := drain[0]
+				drain = drain[1:]
+				if stored[p.coq()] {
+					effDeletes++
+				}
+				delete(stored, p.coq())
+				trie.Delete(p.cidr(w))
+				add("OpDelete "+p.coq(), "ONone", "Delete "+p.human(w))
+				q := pick()
+				if r.intn(2) == 0 {
+					q = pfx{a: new(big.Int), l: 0}
+				}
+				b := trie.Intersects(q.cidr(w))
+				add("OpIntersects "+q.coq(), fmt.Sprintf("OBool %v", b), fmt.Sprintf("Intersects %s -> %v", q.human(w), b))
+				if len(drain) == 0 {
+					c, h := entries(trie.ToSlice())
+					add("OpSlice", "OEntries "+c, "ToSlice -> "+h)
+				}
+				continue
+			}
+			if j >= nops {
+				break
+			}
 			k := r.intn(100)
 			if j < 3 {
 				k = 0
